@@ -434,8 +434,7 @@ class StateReader:
                 raise TranslateError("_state.py %s: no dim dispatch" % name)
             sl[3] = list(range(6))
             res[name] = sl
-        if res["_Slice_Vector"] != res["_Slice_Matrix"]:
-            raise TranslateError("_state.py: _Slice_Vector and _Slice_Matrix use different index sets %s" % res)
+        self.slices_mat = res["_Slice_Matrix"]
         return res["_Slice_Vector"]
 
     def _slice_indices(self, v, name):
@@ -635,7 +634,7 @@ class StateReader:
 def read_state(repo):
     path = os.path.join(repo, "EasyFEA", "Models", "HyperElastic", "_state.py")
     sr = StateReader(path)
-    S = {"file": "EasyFEA/Models/HyperElastic/_state.py", "lines": sr.lines, "slices": sr.slices, "zeroed": sr.zeroed,
+    S = {"file": "EasyFEA/Models/HyperElastic/_state.py", "lines": sr.lines, "slices": sr.slices, "slices_mat": sr.slices_mat, "zeroed": sr.zeroed,
          "inv": {}, "reader": sr}
     # kinematics: C = F^T F, E = (C - I)/2, F = I + grad
     S["kin"] = _read_kinematics(sr)
@@ -1166,6 +1165,7 @@ def emit_inv(M):
     out.append("Definition all_invs : list invtab := [%s]." % "; ".join(names))
     for d, idx in sorted(S["slices"].items()):
         out.append("Definition slice_dim%d : list nat := [%s]." % (d, "; ".join("%d%%nat" % i for i in idx)))
+        out.append("Definition mslice_dim%d : list nat := [%s]." % (d, "; ".join("%d%%nat" % i for i in S["slices_mat"].get(d, []))))
     for d, z in sorted(S["zeroed"].items()):
         out.append("Definition dir_zeroed_dim%d : list nat := [%s]." % (d, "; ".join("%d%%nat" % i for i in z)))
     # per law: invariants the law depends on whose d2IkdC term is left out of the tangent
